@@ -452,7 +452,8 @@ func genCrash(r *rand.Rand, n int, tier string, out *bufio.Writer) {
 		// scenario: 0 plain, 1 a leftover in-progress file of a killed earlier process has the first
 		// name, 2 another goroutine calls Rotate while a record is half written
 		// 3 a marshaler that hands back a continuation segment for every third record
-		fmt.Fprintf(out, "crash %d %d%s\n", pick(r, []int{0, 0, 1, 2, 2, 3, 3}), r.Intn(6), strings.TrimPrefix(l, "writer"))
+		// 4 a second file writer is handed the name of the file that is still in progress
+		fmt.Fprintf(out, "crash %d %d%s\n", pick(r, []int{0, 0, 1, 2, 2, 3, 3, 4}), r.Intn(6), strings.TrimPrefix(l, "writer"))
 	}
 }
 
@@ -538,6 +539,11 @@ func runCrash(toks []string) (string, string) {
 		}
 		opts = append(opts, gowarc.WithMarshaler(&splitMarshaler{inner: gowarc.NewMarshaler(), conts: contRecs, recs: recs}))
 	}
+	if scen == 4 {
+		// one name for every file, no rotation: the second writer's file collides with the first one's
+		opts = append(opts, gowarc.WithMaxFileSize(0),
+			gowarc.WithFileNameGenerator(&gowarc.PatternNameGenerator{Directory: out, Prefix: "v", Pattern: "%{prefix}s-0001.%{ext}s", Extension: "warc"}))
+	}
 	leftover := ""
 	var leftoverContent []byte
 	if scen == 1 {
@@ -599,10 +605,14 @@ func runCrash(toks []string) (string, string) {
 		id   string // WARC-Record-ID of the record this acknowledges
 	}
 	var acks []ack
+	var w2 *gowarc.WarcFileWriter
+	collided := false
 	nops := t.nextInt()
 	for i := 0; i < nops; i++ {
 		if t.next() == "r" {
-			w.Rotate()
+			if scen != 4 {
+				w.Rotate()
+			}
 			continue
 		}
 		k := t.nextInt()
@@ -616,6 +626,23 @@ func runCrash(toks []string) (string, string) {
 				acked++
 			}
 		}
+		if scen == 4 && w2 == nil && acked > 0 {
+			// the first writer's file is in progress and holds acknowledged records: a second writer
+			// that is given the same name must leave it alone (its own Write fails)
+			w2 = gowarc.NewWarcFileWriter(opts...)
+			for _, rs := range w2.Write(recs[0]) {
+				if rs.Err == nil {
+					collided = true
+				}
+			}
+			takeSnap("after-collision")
+		}
+	}
+	if w2 != nil {
+		w2.Close()
+	}
+	if collided {
+		return "collision", "FAIL:crash-unsafe:a second writer was allowed to write to the in-progress file of the first"
 	}
 	if scen == 2 && mids > scenK {
 		select {
